@@ -1,0 +1,13 @@
+//go:build verif && gc && !purego && amd64
+
+package chacha20poly1305
+
+// VerifSetAVX2 switches the assembly dispatch (package variable useAVX2) and returns the old value.
+func VerifSetAVX2(on bool) (old bool) {
+	old = useAVX2
+	useAVX2 = on
+	return old
+}
+
+// VerifHasAsm reports whether this build contains the amd64 assembly path.
+const VerifHasAsm = true
